@@ -199,6 +199,7 @@ pub fn check(case: &Case) -> CaseResult {
     let mut classes: Classes = vec![];
     let mut emf = EmfCfg::simple(Ctor::AllValidations).build();
     let mut concurrent_mid_readout = false;
+    let mut two_readers = false;
     let all_readouts: Mutex<Vec<(RecLog, bool)>> = Mutex::new(vec![]);
     for ph in &case.phases {
         for (n, u, kind) in &ph.describes {
@@ -292,20 +293,25 @@ pub fn check(case: &Case) -> CaseResult {
                     }
                 });
             }
-            // the reader
-            {
+            // the reader(s): a second, overlapping reader (a periodic reporter plus a manual flush)
+            // when the script's first byte is odd - every update is still in exactly one readout
+            let n_readers = if ph.readouts.first().map(|b| b % 2 == 1).unwrap_or(false) { 2 } else { 1 };
+            for rdr in 0..n_readers {
                 let rec = &rec;
                 let ts = ts.clone();
                 let all = &all_readouts;
-                let readouts = &ph.readouts;
+                let readouts: Vec<u8> = if rdr == 0 { ph.readouts.clone() } else { ph.readouts.iter().rev().copied().collect() };
                 s.spawn(move || {
                     let _g = set_time_source(ts);
-                    for j in readouts {
+                    for j in &readouts {
                         crate::bq::jitter(*j);
                         let e = rec.readout();
                         all.lock().unwrap().push((record(&e), false));
                     }
                 });
+            }
+            if n_readers == 2 {
+                two_readers = true;
             }
         });
         for (k, v) in &ph.gauges {
@@ -448,6 +454,9 @@ pub fn check(case: &Case) -> CaseResult {
     }
     if case.emit_zero {
         classes.push("emit-zero-counters");
+    }
+    if two_readers {
+        classes.push("two-overlapping-readers");
     }
     classes.sort();
     classes.dedup();
@@ -712,12 +721,12 @@ pub fn run(ctx: &mut Ctx) {
     ctx.explore(
         SubCfg::new(
             "c20-bridge",
-            "MetricRecorder<dyn metrics::Recorder> driven through the metrics 0.24 Recorder trait: 1-3 phases, each with describe calls (before or after first registration), 1-8 updater threads running generated scripts over 3 names x 3 label sets (counter increments incl. 0 and u32::MAX, histogram samples 0..2^32 and over-range through record and record_many, pauses), one gauge writer, and a reader thread calling readout() at generated points WHILE the updaters run, plus a readout after the join. Oracle: per counter key the readout deltas sum to the increments; per histogram key the bucket counts sum to the number of samples and, sorted pairwise, each reported value is exact below 32 and within 1/32 above (the bucket midpoint of a 1/16-wide bucket - the bound the bridge's own accuracy test pins); every reported key is a registered one and carries data only if data was recorded under it; every gauge that was set is in the quiescent readout with its last value; the final gauge equals the last value set; every readout replayed into a RecLog writes the injected timestamp, AllowSplitEntries before any value, each metric under its registered name with its labels as dimensions and the described unit; the readout entry is accepted by Emf::all_validations. Non-trivial = >=2 updater threads on the same key with a readout running concurrently",
+            "MetricRecorder<dyn metrics::Recorder> driven through the metrics 0.24 Recorder trait: 1-3 phases, each with describe calls (before or after first registration), 1-8 updater threads running generated scripts over 3 names x 3 label sets (counter increments incl. 0 and u32::MAX, histogram samples 0..2^32 and over-range through record and record_many, pauses), one gauge writer, and one or two reader threads calling readout() at generated points WHILE the updaters run, plus a readout after the join. Oracle: per counter key the readout deltas sum to the increments; per histogram key the bucket counts sum to the number of samples and, sorted pairwise, each reported value is exact below 32 and within 1/32 above (the bucket midpoint of a 1/16-wide bucket - the bound the bridge's own accuracy test pins); every reported key is a registered one and carries data only if data was recorded under it; every gauge that was set is in the quiescent readout with its last value; the final gauge equals the last value set; every readout replayed into a RecLog writes the injected timestamp, AllowSplitEntries before any value, each metric under its registered name with its labels as dimensions and the described unit; the readout entry is accepted by Emf::all_validations. Non-trivial = >=2 updater threads on the same key with a readout running concurrently",
             if q { 3_000 } else { 60_000 },
         )
         .threads(ctx.tier.pick(2, 4))
         .shrink_iters(150)
-        .mandatory(&["multi-thread", "describe", "emit-zero-counters", "record-many"]),
+        .mandatory(&["multi-thread", "describe", "emit-zero-counters", "record-many", "two-overlapping-readers"]),
         || {
             (
                 prop::collection::vec(
